@@ -362,3 +362,27 @@ def reach_summary():
         key = f'{os.path.basename(co.co_filename)}:{co.co_qualname}'
         out[key] = out.get(key, 0) + REACH.get(co, 0)
     return out
+
+
+def _scratch_noop():
+    return None
+
+
+def scratch_environment(ids):
+    """A private Environment of the user's own (a calendar, a what-if) that lives next to the model's: events for the
+    same asset ids are scheduled, paused, cancelled, resumed and run in it.  The instrumentation is silent meanwhile;
+    the model's own Environment must not notice."""
+    from simprocesd.model import Environment
+    with probing():
+        e = Environment('scratch')
+        for k, a in enumerate(ids):
+            e.schedule_event(1 + k, a, _scratch_noop, 5)
+            e.schedule_event(2.5 + k, a, _scratch_noop, 7)
+        e.pause_matching_events(ids[0])
+        e.cancel_matching_events(ids[-1])
+        e.run(1.5)
+        e.unpause_matching_events(ids[0])
+        e.pause_matching_events(ids[-1])
+        e.run(len(ids) + 4)
+        e.step() if e._events else None
+    return e
